@@ -566,6 +566,14 @@ func (l *Ledger) ConfirmBlock(block *pb.InternalBlock, isRoot bool) ConfirmStatu
 	dummyTransactions := []*pb.Transaction{}
 	realTransactions := block.Transactions // 真正的交易转存到局部变量
 	block.Transactions = dummyTransactions // block表不保存transaction详情
+	defer func() {
+		if !confirmStatus.Succ {
+			// 失败时batch没有落盘, 但cache里的区块(头)可能已经被加入或者改写, 全部丢弃保证和磁盘一致
+			l.blkHeaderCache = cache.NewLRUCache(BlockCacheSize)
+			l.blockCache = cache.NewLRUCache(BlockCacheSize)
+			block.Transactions = realTransactions
+		}
+	}()
 
 	batchWrite := l.confirmBatch
 	batchWrite.Reset()
